@@ -17,7 +17,9 @@ import (
 // fails, "u" call to an unknown method, "v" notification to an unknown method,
 // "x" invalid member carrying an id (bad version), "y" invalid member without id,
 // "i" rpc.serverInfo call, "d" call with the id of the first call of the sequence
-// (duplicate); "[..]" wraps members into a batch.
+// (duplicate), "g"/"h" gated call / notification, "q"/"p" call / notification whose
+// handler awaits a Callback with its own context, "z" notification with an explicit
+// "id":null; "[..]" wraps members into a batch.
 
 type memberSpec struct {
 	Kind   byte
@@ -34,9 +36,9 @@ type msgSpec struct {
 	JSON    string
 }
 
-func (m *memberSpec) isCall() bool     { return strings.IndexByte("cfuidg", m.Kind) >= 0 }
-func (m *memberSpec) isNote() bool     { return m.Kind == 'n' || m.Kind == 'v' || m.Kind == 'h' }
-func (m *memberSpec) hasHandler() bool { return strings.IndexByte("cfndgh", m.Kind) >= 0 }
+func (m *memberSpec) isCall() bool     { return strings.IndexByte("cfuidgq", m.Kind) >= 0 }
+func (m *memberSpec) isNote() bool     { return m.Kind == 'n' || m.Kind == 'v' || m.Kind == 'h' || m.Kind == 'p' || m.Kind == 'z' }
+func (m *memberSpec) hasHandler() bool { return strings.IndexByte("cfndghpqz", m.Kind) >= 0 }
 
 // buildSeq turns tokens into concrete messages with fresh ids.
 func buildSeq(tokens []string) []*msgSpec {
@@ -56,7 +58,7 @@ func buildSeq(tokens []string) []*msgSpec {
 			m := &memberSpec{Kind: k, Msg: mi, Pos: pi}
 			name := fmt.Sprintf("%c%d_%d", k, mi, pi)
 			switch k {
-			case 'c', 'f', 'g':
+			case 'c', 'f', 'g', 'q':
 				m.ID = strconv.Itoa(nextID)
 				nextID++
 				m.Method = name
@@ -71,9 +73,12 @@ func buildSeq(tokens []string) []*msgSpec {
 				}
 				m.Method = name
 				m.JSON = fmt.Sprintf(`{"jsonrpc":"2.0","id":%s,"method":%q}`, m.ID, m.Method)
-			case 'n', 'h':
+			case 'n', 'h', 'p':
 				m.Method = name
 				m.JSON = fmt.Sprintf(`{"jsonrpc":"2.0","method":%q}`, m.Method)
+			case 'z': // a notification spelled with an explicit null id
+				m.Method = name
+				m.JSON = fmt.Sprintf(`{"jsonrpc":"2.0","id":null,"method":%q}`, m.Method)
 			case 'u':
 				m.ID = strconv.Itoa(nextID)
 				nextID++
@@ -146,6 +151,16 @@ func (h *seqHarness) handler() jrpc2.Handler {
 		h.entered[req.Method()] = true
 		if m := req.Method(); m[0] == 'g' || m[0] == 'h' {
 			h.gates.Wait(m)
+		}
+		if m := req.Method(); m[0] == 'p' || m[0] == 'q' {
+			// the handler awaits a server-to-client callback with its own context (push-enabled servers)
+			rsp, err := jrpc2.ServerFromContext(ctx).Callback(ctx, "cb."+m, nil)
+			vs.Yield("callback-ret")
+			if err != nil {
+				vs.Note("cb_ret", m, "err", err.Error())
+			} else {
+				vs.Note("cb_ret", m, "ok", rsp.ResultString())
+			}
 		}
 		// the context is observed atomically with the log append (arguments evaluated after the scheduling point)
 		vs.Yield("h_exit")
